@@ -54,6 +54,22 @@ func decodeAll(b []byte, zero any, dir string) []string {
 		}
 		return v
 	})
+	// the list form: the byte string alone, behind a well-formed datagram, in front of one, and next to nil / empty ones
+	try("UnmarshalArray", func() any {
+		good := make([]byte, 64)
+		good[0] = 0x17
+		if tag := functionCodeOf(t); tag >= 0 {
+			good[1] = byte(tag)
+		}
+		var last any
+		for _, list := range [][][]byte{{b}, {good, b}, {b, good}, {good, nil, b}, {{}, b}, {}} {
+			arr := reflect.New(reflect.SliceOf(t))
+			if err := codec.UnmarshalArray(list, arr.Interface()); err == nil && arr.Elem().Len() > 0 {
+				last = arr.Elem().Index(arr.Elem().Len() - 1).Interface()
+			}
+		}
+		return last
+	})
 	switch dir {
 	case "req":
 		try("UnmarshalRequest", func() any {
@@ -75,6 +91,20 @@ func decodeAll(b []byte, zero any, dir string) []string {
 	return bad
 }
 
+// functionCodeOf: the function code in the type's MsgType tag (-1: none)
+func functionCodeOf(t reflect.Type) int {
+	for i := 0; i < t.NumField(); i++ {
+		if t.Field(i).Type == rtMsgType {
+			var v int
+			tag := t.Field(i).Tag.Get("uhppote")
+			if _, err := fmt.Sscanf(tag, "value:0x%x", &v); err == nil {
+				return v
+			}
+		}
+	}
+	return -1
+}
+
 type recorder struct {
 	events []M
 	errors int
@@ -89,7 +119,7 @@ func (l *recorder) OnEvent(s *types.Status) {
 		time.Sleep(l.slow)
 	}
 }
-func (l *recorder) OnError(err error) bool { l.errors++; return true }
+func (l *recorder) OnError(err error) bool { l.errors++; return l.errors%2 == 0 } // (whatever it answers)
 
 func runC04(o *opts) (*summary, error) {
 	lt, err := loadLayouts(o.extraArg("layouts"))
